@@ -270,6 +270,27 @@ def generic(prop, ctx, nq, nt, steps, rule, weights=None, extra=None, **kw):
     return res
 
 
+
+def wrapold_walks(ctx, n, seed0, profiles=(3,), naddr=2, w1=None, w2=None, first=45, second=30):
+    """the identifier counter's wrap with old requests still unfinished: requests of every kind (awaiting PUBACK, PUBREC, PUBCOMP,
+    SUBACK, UNSUBACK, held back, preserved by a persistent session) are created under low identifiers, then the counter is placed
+    just before the wrap (what ~65535 finished allocations would do) and new requests of every kind follow"""
+    out = []
+    for i in range(n):
+        seed = ctx['seed'] * 100003 + seed0 + i
+        W1 = dict(QUIET, build=6, connect=8, connack=10, publish=22, subscribe=8, unsubscribe=8, puback=2, pubrec=8, pubcomp=1,
+                  suback=1, unsuback=1, fire=2, lost=(2 if i % 2 else 0), setwin=3, inpub=0, pubrel=0, pingresp=0, jit=0)
+        W1.update(w1 or {})
+        w = walker.Walker(seed, profile=profiles[i % len(profiles)], naddr=naddr, clean=(i % 3 == 0), allow_api_after_lost=False, weights=W1)
+        w.run(first)
+        w.do('setid %d' % (65531 + i % 5))
+        W2 = dict(publish=30, subscribe=12, unsubscribe=12, puback=1, pubrec=1, pubcomp=0, suback=0, unsuback=0, lost=0, fire=1)
+        W2.update(w2 or {})
+        w.weights.update(W2)
+        w.run(second)
+        out.append(('wrapold%d' % seed, w.lines, w.trace))
+    return out
+
 # ---------------------------------------------------------------------------------------------
 # per-property configuration
 # ---------------------------------------------------------------------------------------------
@@ -334,9 +355,33 @@ def c06(ctx):
 
 
 def c07(ctx):
+    def extra(ctx):
+        # calls that pass the argument checks but cannot be encoded (a topic of 65536 UTF-8 bytes) are not accepted calls: they must leave
+        # nothing behind - the window still admits `win` real requests, loss settles the real ones, the next connection starts clean
+        out = []
+        long_s = s_tok('é' * 32768)
+        long_l = 'l:%s,1;%s,0' % (s_tok('ok').replace(':', '='), long_s.replace(':', '='))
+        long_u = 'L:%s;%s' % (s_tok('ok').replace(':', '='), long_s.replace(':', '='))
+        for prof in (3, 1):
+            for win in (1, 2):
+                for clean in (0, 1):
+                    for shape in (0, 1):
+                        b = ['factory %d' % prof, 'build a0', 'sethandlers 0 7', 'connect 0 %s 0 311 %d' % (s_tok('c'), clean), 'recv 0 20020000', 'setwin 0 %d' % win]
+                        badsub = 'subscribe 0 %s 1' % long_s if shape == 0 else 'subscribe 0 %s 0' % long_l
+                        badun = 'unsubscribe 0 %s' % (long_s if shape == 0 else long_u)
+                        sc = b + [badsub, badun]
+                        sc += ['subscribe 0 %s 1' % s_tok('a/%d' % k) for k in range(win + 1)]
+                        sc += ['unsubscribe 0 %s' % s_tok('b/%d' % k) for k in range(win + 1)]
+                        sc += [badsub, badun, 'lost 0 lostc', 'build a0', 'sethandlers 1 7', 'connect 1 %s 0 311 %d' % (s_tok('c'), clean), 'recv 1 20020000', 'setwin 1 %d' % win]
+                        sc += ['subscribe 1 %s 2' % s_tok('z/%d' % k) for k in range(win + 1)]
+                        sc += ['unsubscribe 1 %s' % s_tok('y/%d' % k) for k in range(win + 1)]
+                        sc += ['lost 1 done']
+                        out.append(('unencodable-%d-%d-%d-%d' % (prof, win, clean, shape), sc))
+        return out
     return generic('C07', ctx, 300, 8000, 60,
                    'corpus; seeded walks over the three argument shapes of subscribe()/two of unsubscribe(), window 1..16 changed mid-flight, SUBACK/UNSUBACK in any order/duplicated/foreign, '
-                   'granted lists of length 0..3 over {0,1,2,0x80}, expiries, loss + reconnect in both session modes',
+                   'granted lists of length 0..3 over {0,1,2,0x80}, expiries, loss + reconnect in both session modes; enumerated: calls whose topics cannot be encoded (65536 UTF-8 bytes, plain and in '
+                   'a list) before and between window-filling real calls, then loss and a second connection', extra=extra,
                    weights=dict(QUIET, subscribe=16, unsubscribe=14, suback=12, unsuback=10, setwin=5, fire=8, lost=4, publish=2, badcall=1), profiles=(3, 1, 3, 1))
 
 
@@ -378,8 +423,13 @@ def c08(ctx):
 
 
 def c09(ctx):
+    def extra(ctx):
+        # exchanges left in the PUBREL phase while the identifier counter wraps: the identifier is not free until PUBCOMP
+        return wrapold_walks(ctx, 16 if ctx['tier'] == 'quick' else 300, 9000, profiles=(3, 2), naddr=1,
+                             w1=dict(subscribe=0, unsubscribe=0, pubrec=14, puback=0, pubcomp=0, fire=4), w2=dict(subscribe=0, unsubscribe=0, publish=40, fire=3))
     return generic('C09', ctx, 300, 8000, 60,
-                   'corpus; seeded walks of QoS 2 publishes with PUBREC/PUBCOMP in order, out of order, duplicated; expiries of both timers; loss + persistent reconnect at each point of the exchange',
+                   'corpus; seeded walks of QoS 2 publishes with PUBREC/PUBCOMP in order, out of order, duplicated; expiries of both timers; loss + persistent reconnect at each point of the exchange; '
+                   'walks in which exchanges wait for PUBCOMP while the identifier counter is placed just before its wrap and further publishes follow', extra=extra,
                    weights=dict(QUIET, publish=16, pubrec=14, pubcomp=12, puback=2, dupack=4, fire=14, lost=6, setwin=3, subscribe=0, unsubscribe=0, inpub=0, pubrel=0),
                    profiles=(3, 2), clean=0)
 
@@ -536,16 +586,7 @@ def c17(ctx):
         # the wrap with old requests still unfinished: requests of every kind (awaiting PUBACK, PUBREC, PUBCOMP, SUBACK, UNSUBACK, held
         # back, preserved by a persistent session) are created on two addresses with low identifiers, then the counter is placed just
         # before the wrap (what 65535 finished allocations would do) and new requests of every kind are issued on both addresses
-        for i in range(n):
-            seed = ctx['seed'] * 100003 + 13000 + i
-            w = walker.Walker(seed, profile=3, naddr=2, clean=(i % 3 == 0), allow_api_after_lost=False,
-                              weights=dict(QUIET, build=6, connect=8, connack=10, publish=22, subscribe=8, unsubscribe=8, puback=2, pubrec=8, pubcomp=1,
-                                           suback=1, unsuback=1, fire=2, lost=(2 if i % 2 else 0), setwin=3, inpub=0, pubrel=0, pingresp=0, jit=0))
-            w.run(45)
-            w.do('setid %d' % (65531 + i % 5))
-            w.weights.update(dict(publish=30, subscribe=12, unsubscribe=12, puback=1, pubrec=1, pubcomp=0, suback=0, unsuback=0, lost=0, fire=1))
-            w.run(30)
-            out.append(('wrapold%d' % seed, w.lines, w.trace))
+        out += wrapold_walks(ctx, n, 13000)
         return out
     return generic('C17', ctx, 250, 6000, 60,
                    'corpus; seeded walks issuing requests of every kind; additionally walks started with the identifier counter placed at 65530..65535, and two-address walks in which requests of every kind are left unfinished under low identifiers before the counter is placed at 65531..65535 and new requests of every kind follow',
@@ -588,6 +629,23 @@ def c16(ctx):
                         if len(sc) > 400:
                             out.append(('mal', sc + ['lost 0 done'])); sc = list(pre)
                 out.append(('mal', sc + ['lost 0 done']))
+        # complete PUBLISH packets whose topic length prefix promises k bytes more (or fewer) than the packet holds, at every QoS
+        for prof in (3, 1, 2):
+            pre = ['factory %d' % prof, 'build a0', 'sethandlers 0 7', 'connect 0 %s 0 311 0' % s_tok('c'), 'recv 0 20020000']
+            sc = list(pre)
+            for L in (0, 1, 4, 127, 300):
+                for k in (1, 2, 3, 255, 65535 - L):
+                    for fb, tail in ((0x30, b''), (0x31, b''), (0x32, b''), (0x34, b''), (0x30, None)):
+                        topic = b'a' * L
+                        if tail is None:       # no variable header at all beyond the prefix bytes available
+                            body = bytes([(L + k) >> 8, (L + k) & 255])[:1 + (L % 2)]
+                        else:
+                            body = bytes([(L + k) >> 8, (L + k) & 255]) + topic
+                        sc.append('recv 0 %s' % hx(pkt(fb, body)))
+                        sc.append('recv 0 %s' % hx(publish_pkt('ok', b'1', 0)))
+                        if len(sc) > 80:
+                            out.append(('shortstr', sc + ['lost 0 done'])); sc = list(pre)
+            out.append(('shortstr', sc + ['lost 0 done']))
         for prof in (3, 1):
             pre = ['factory %d' % prof, 'build a0', 'sethandlers 0 7', 'connect 0 %s 0 311 0' % s_tok('c'), 'recv 0 20020000']
             for fb in (0x36, 0x37, 0x3E, 0x3F):
@@ -785,13 +843,22 @@ def _c19_owner_maps(trace):
     return addr_of, timer_owner, dfd_owner
 
 
+def _nm(idmap, i, fresh=False):
+    """canonical name of packet identifier i: identifiers are named by allocation order (an identifier handed out again after the
+    counter wrapped is a new name)"""
+    if fresh or i not in idmap:
+        idmap['_n'] = idmap.get('_n', 0) + 1
+        idmap[i] = idmap['_n']
+    return idmap[i]
+
+
 def _canon_pkt(b, idmap):
     pk = mqttparse.parse(b)
     if pk is None:
         return ('raw', b.hex())
     d = {k: v for k, v in pk.items() if k not in ('raw',)}
     if d.get('id') is not None and pk['type'] in ('PUBLISH', 'PUBREL', 'SUBSCRIBE', 'UNSUBSCRIBE'):
-        d['id'] = idmap.setdefault(d['id'], len(idmap) + 1)
+        d['id'] = _nm(idmap, d['id'])
     return tuple(sorted((k, repr(v)) for k, v in d.items()))
 
 
@@ -818,6 +885,8 @@ def _c19_view(trace, A, addr_of, timer_owner, dfd_owner):
         for o in obs:
             if o.startswith('now'):
                 now = int(o.split()[1])
+            if mine and o.startswith('ret pending') and o.split()[3] != '-':
+                _nm(idmap, int(o.split()[3]), fresh=True)       # this call allocated the identifier (its write precedes the return)
         for o in obs:
             k = o.split()
             if k[0] == 'w' and int(k[1]) in prank:
@@ -832,12 +901,12 @@ def _c19_view(trace, A, addr_of, timer_owner, dfd_owner):
                 d = drank.setdefault(int(k[1]), len(drank))
                 val = k[3]
                 if k[2] == 'ok' and val.startswith('i') and dfd_owner is not None:
-                    val = 'i#%d' % idmap.setdefault(int(val[1:]), len(idmap) + 1)
+                    val = 'i#%d' % _nm(idmap, int(val[1:]))
                 ev.append(('fired', d, k[2], val))
             elif k[0] == 'ret' and mine:
                 if k[1] == 'pending':
                     d = drank.setdefault(int(k[2]), len(drank))
-                    ev.append(('ret', 'pending', d, '-' if k[3] == '-' else '#%d' % idmap.setdefault(int(k[3]), len(idmap) + 1)))
+                    ev.append(('ret', 'pending', d, '-' if k[3] == '-' else '#%d' % _nm(idmap, int(k[3]))))
                 else:
                     ev.append(tuple(k))
             elif k[0] in ('raised', 'esc', 'nofire') and mine:
@@ -945,7 +1014,8 @@ def c19(ctx):
     else:
         W = dict(QUIET, chunked=0, dupack=0, publish=16, puback=7, pubrec=6, pubcomp=5, subscribe=5, unsubscribe=4, suback=4, unsuback=3, inpub=6, pubrel=4, lost=5, fire=10, build=8, pingresp=2)
         scen = walks(ctx, n, 70, 19000, weights=W, naddr=2, profiles=(3, 3, 2, 1), keepalives=(0, 0, 2, 5))
-        scen = corpus_scenarios('C19') + scen
+        # unfinished requests on both addresses while the shared identifier counter wraps
+        scen = corpus_scenarios('C19') + scen + wrapold_walks(ctx, 16 if ctx['tier'] == 'quick' else 300, 19500, w1=dict(lost=0))
     for item in scen:
         name, lines = item[0], item[1]
         tr = item[2] if len(item) > 2 and item[2] is not None else realworld.run_scenario(lines)
